@@ -4,7 +4,7 @@ FRAGMENT = {
   'level_text': 'seeded exploration of magazine multiplex schedules (parallel and serial mode), page/subpage/national-option/erase/update histories and frame packings against a reference page store and an independent Level-1 formatter (EN 300 706 12.2, Table 36); real decoder under ASan+UBSan; sampling, not proof',
   'level_note': 'trusted: my transmitter (Hamming/parity/packet layout from EN 300 706), my Level-1 formatter and national option table, the termination rule of the statement; held-mosaic cells after a size or alpha/mosaic change accept both the standard and the common-practice rendering, but only once a mosaic character of the same row has been displayed (before that the held mosaic is the start-of-row blank under both readings and is compared strictly); row 24 is not compared when it is replaced by the FLOF bar; fault-free channel',
   'design_ref': 'DESIGN.md section 6 (C02)',
-  'quick': {'runs': 40000, 'budget_s': 35, 'workers': 16},
+  'quick': {'runs': 80000, 'budget_s': 35, 'workers': 16},
   'thorough': {'runs': 600000, 'budget_s': 900, 'workers': 16, 'det_sample': 100},
   'rule': 'one evaluation = one simulated run: up to 8 magazine transmitter tasks with carousels of 5-70 page transmissions (rows in any order or omitted, X/27/0, erase or update, subpages, 8 national options, row styles incl. hold mosaics in effect before the first mosaic of a row) and, in two thirds of the runs, time filling headers xFF in magazines with pages and in otherwise unused magazines (they terminate pages and never are pages; counters filler_headers*), interleaved packet by packet by the seeded scheduler; 1-16 packets per vbi_decode call; non-trivial = at least 3 pages terminated and checked and at least 2 magazine switches; distinct = distinct event-log hash',
   'fault_kinds': [],
